@@ -67,7 +67,7 @@ def cases(n: int) -> list[dict[str, Any]]:
             if any("/" in k for k in files):
                 continue
             out.append({"id": c.id, "files": files})
-    rng = common.rng_for("C05", "corpus")
+    rng = common.rng_fixed("C05", "corpus")
     rng.shuffle(out)
     return out[:n]
 
